@@ -7,9 +7,9 @@ using namespace fw;
 using namespace lib;
 
 enum { OP_CREATE, OP_CREATE_FAIL, OP_DESTROY, OP_DESTROY_DEAD, OP_USE, OP_PROBE_DEAD, OP_PRESET, OP_DECODE_INSUFF,
-       OP_DECODE_BADHDR, OP_BADARGS, OP_META, OP_ENCODE_THREAD, OP_RECON, OP_XDESTROY, OP_SIZE_LIE, OP_NOPS };
+       OP_DECODE_BADHDR, OP_BADARGS, OP_META, OP_ENCODE_THREAD, OP_RECON, OP_XDESTROY, OP_SIZE_LIE, OP_MT_FIRST, OP_NOPS };
 static const char *OPN[] = {"create", "create_fail", "destroy", "destroy_dead", "use", "probe_dead", "preset", "decode_insuff",
-                            "decode_badhdr", "badargs", "meta", "encode_thread", "recon", "xdestroy", "size_lie"};
+                            "decode_badhdr", "badargs", "meta", "encode_thread", "recon", "xdestroy", "size_lie", "mt_first"};
 enum { MODE_C14 = 14, MODE_C15 = 15, MODE_C16 = 16 };
 static const int NSLOTS = 4;
 static bool g_explicit_lsan = true;     // the libFuzzer target switches to libFuzzer's own leak detection
@@ -354,6 +354,32 @@ static Result run_history(const Case &c, int mode) {
             w.failing_call = true;
             break;
         }
+        case OP_MT_FIRST: {
+            // several threads make the FIRST calls on a freshly created descriptor at the same time (lazily built
+            // per-instance state must not be built twice and lost); the end-of-history leak check is the oracle
+            Config g = shape_for((int)a, (int)b);
+            if (g.backend == ref::B_NULL) g.backend = ref::B_RS;
+            int d = create(g);
+            if (d <= 0) { fail_at(step, "create failed"); break; }
+            std::vector<uint8_t> data = data_for(g, (int)(b % 1000));
+            const int NT = 4;
+            ThreadArg ta[NT]; pthread_t th[NT];
+            static pthread_barrier_t bar;
+            pthread_barrier_init(&bar, nullptr, NT);
+            struct Go { ThreadArg *t; pthread_barrier_t *b; } go[NT];
+            for (int i = 0; i < NT; i++) { ta[i] = ThreadArg{d, &g, &data, Stripe()}; go[i] = Go{&ta[i], &bar}; }
+            auto entry = [](void *p) -> void * { Go *g2 = (Go *)p; pthread_barrier_wait(g2->b); g2->t->out = encode(g2->t->desc, *g2->t->g, *g2->t->data); return nullptr; };
+            for (int i = 0; i < NT; i++) pthread_create(&th[i], nullptr, entry, &go[i]);
+            for (int i = 0; i < NT; i++) pthread_join(th[i], nullptr);
+            pthread_barrier_destroy(&bar);
+            auto want = ref::serialize_stripe(g, data.data(), data.size(), running, false);
+            for (int i = 0; i < NT; i++) {
+                if (ta[i].out.rc != 0) { fail_at(step, "concurrent first encode failed"); break; }
+                for (int f = 0; f < g.n(); f++) if (ta[i].out.frags[f] != want[f]) { fail_at(step, "concurrent first encode differs from the reference"); break; }
+            }
+            if (liberasurecode_instance_destroy(d) != 0) fail_at(step, "destroy failed");
+            break;
+        }
         case OP_SIZE_LIE: {
             // re-sealed fragments that disagree on the original data length: a documented error path
             // ("Inconsistent orig_data_size"); only memory safety and leak freedom are demanded here
@@ -578,9 +604,9 @@ static Case gen_history(int mode) {
     int len = (int)pick(1, maxlen);
     if (coin(2, 3)) len = (int)pick(1, std::min(maxlen, 25));
     std::vector<int> wts;
-    if (mode == MODE_C14) wts = {8, 2, 5, 2, 4, 2, 1, 0, 0, 0, 0, 0, 1, 2, 0};
-    else if (mode == MODE_C15) wts = {5, 1, 2, 1, 6, 0, 0, 1, 1, 1, 3, 3, 3, 0, 0};
-    else wts = {6, 2, 4, 2, 5, 2, 0, 3, 3, 3, 2, 1, 3, 1, 3};
+    if (mode == MODE_C14) wts = {8, 2, 5, 2, 4, 2, 1, 0, 0, 0, 0, 0, 1, 2, 0, 0};
+    else if (mode == MODE_C15) wts = {5, 1, 2, 1, 6, 0, 0, 1, 1, 1, 3, 3, 3, 0, 0, 1};
+    else wts = {6, 2, 4, 2, 5, 2, 0, 3, 3, 3, 2, 1, 3, 1, 3, 2};
     int tot = 0; for (int x : wts) tot += x;
     auto ops = *rc::gen::resize(len, rc::gen::container<std::vector<std::tuple<int, int, int>>>(
         rc::gen::tuple(rc::gen::resize(100, rc::gen::inRange(0, tot)), rc::gen::resize(100, rc::gen::inRange(0, 1 << 12)), rc::gen::resize(100, rc::gen::inRange(0, 1 << 12)))));
